@@ -57,7 +57,7 @@ package plugin
 
 // Factory made from a component constructor: each product is built from a configuration obtained for that product.
 //@ func (c *pluginConstructor) NewFactory#lit0
-//@ props C18
+//@ props C18 C02 C03 C11
 //@ may_panic true
 //@ ensures [one-configuration-and-one-construction-per-product] imp(getMaybeConf != nil, calls(getMaybeConf) == 1) && imp(calls(c.newPlugin.Call) == 1 && getMaybeConf != nil, result_of(getMaybeConf, 1) == nil)
 //@ at return c.newPlugin.Call assume [a-registered-constructor-returns-the-component-and-maybe-an-error] len(result_of(c.newPlugin.Call, 0)) >= 1 && len(result_of(c.newPlugin.Call, 0)) <= 2
@@ -74,7 +74,7 @@ package plugin
 
 // ... and every product is one call of the registered factory.
 //@ func (c *factoryConstructor) NewFactory#lit0
-//@ props C18
+//@ props C18 C02 C03 C11
 //@ may_panic true
 //@ ensures [one-call-of-the-registered-factory-per-product] calls(factory.Call) == 1
 //@ ensures [the-factory-constructor-is-not-run-again] calls(c.callNewFactory) == 0
